@@ -784,13 +784,15 @@ fn start_client_app(client: Client, addr: std::net::SocketAddr, rec: Rec, scn: A
 pub struct ExecInput {
     pub schedule: Schedule,
     pub injects: Vec<Inject>,
+    /// false = differential baseline run: Forge actions only hold the genuine datagram back
+    pub forge: bool,
     pub client_rewrite: Option<TxRewrite>,
     pub server_rewrite: Option<TxRewrite>,
 }
 
 impl ExecInput {
     pub fn plain(schedule: Schedule) -> ExecInput {
-        ExecInput { schedule, injects: vec![], client_rewrite: None, server_rewrite: None }
+        ExecInput { schedule, injects: vec![], forge: true, client_rewrite: None, server_rewrite: None }
     }
 }
 
@@ -891,13 +893,16 @@ where
 pub fn execute(scn: &Scenario, input: ExecInput) -> Record {
     let rec = Rec::default();
     let scn = Arc::new(scn.clone());
+    // hook H5: key update window = confidentiality limit - N  =>  an update every N packets
     if let Some(n) = scn.key_update_every {
-        std::env::set_var("S2N_QUIC_VERIF_KEY_UPDATE_EVERY", n.to_string());
+        let limit: u64 = if scn.tls == Tls::Null { u64::MAX } else { 1 << 23 };
+        std::env::set_var("S2N_QUIC_VERIF_KEY_UPDATE_WINDOW", (limit - n).to_string());
     } else {
-        std::env::remove_var("S2N_QUIC_VERIF_KEY_UPDATE_EVERY");
+        std::env::remove_var("S2N_QUIC_VERIF_KEY_UPDATE_WINDOW");
     }
     let net = ChoiceNet::new(&input.schedule, input.injects, Duration::from_millis(scn.base_delay_ms), scn.mtu as usize - 28, rec.clone());
     let shared = net.shared.clone();
+    shared.lock().unwrap().forge_enabled = input.forge;
     let mut executor = Executor::new(net, scn.seed);
     let handle = executor.handle().clone();
     let ExecInput { client_rewrite, server_rewrite, .. } = input;
